@@ -5,9 +5,9 @@ import numpy as np
 from harness import circgen as cg, oracle_net as on
 
 THEOREMS = ['C17_topo_nodup', 'C17_sources_first', 'C17_drivers_first', 'C17_complete', 'C17_levels', 'C17_levels_domain',
-            'C17_line_order', 'C17_reverse_is_mirror', 'C17_reverse_complete', 'C17_readers_first']
+            'C17_line_order', 'C17_reverse_is_mirror', 'C17_reverse_complete', 'C17_readers_first', 'C17_locs_numeric_order']
 HEADER = '''From Coq Require Import List NArith ZArith Bool Arith String.
-From KV Require Import Model.Netlist Model.Corr.
+From KV Require Import Model.Netlist Model.Locs Model.Corr.
 Import ListNotations.
 Local Open Scope list_scope.
 Local Open Scope string_scope.
@@ -120,6 +120,17 @@ def expected_locs(names, prefix):
     return None if isinstance(l, list) and len(l) == 0 else l
 
 
+def coq_res(r):
+    if r is None:
+        return 'Some None'
+    def f(x):
+        return f'RLeaf {x}' if isinstance(x, int) else 'RList [' + '; '.join(f(y) for y in x) + ']'
+    return f'Some (Some ({f(r)}))'
+
+
+LOCS_CASES = []
+
+
 def locs_check(rng):
     from kyupy.circuit import Circuit, Node
     names, bases, singles, style = gen_names(rng)
@@ -139,6 +150,9 @@ def locs_check(rng):
             return desc, f's_locs({prefix!r}) raises {type(e).__name__}: {e}'
         if got != exp:
             return dict(desc, prefix=prefix), f's_locs({prefix!r}) = {got}, expected {exp} (LSB to MSB by numeric index, nested per dimension)'
+        if len(LOCS_CASES) < 400:
+            snames = [n.name for n in c.s_nodes]
+            LOCS_CASES.append(f'locs_case "{prefix}" [' + '; '.join(f'"{x}"' for x in snames) + f'] ({coq_res(got)})')
         exp_io = expected_locs(names[:n_io], prefix)
         if c.io_locs(prefix) != exp_io:
             return dict(desc, prefix=prefix), f'io_locs({prefix!r}) = {c.io_locs(prefix)}, expected {exp_io}'
@@ -184,12 +198,20 @@ def run(ck):
         ck.nontrivial(('n', tuple(desc['names'][:6])))
         if what:
             fails.append(('locs', desc, what))
+    del LOCS_CASES[ck.scale(150, 400):]
+    chunks = [LOCS_CASES[i:i + 80] for i in range(0, len(LOCS_CASES), 80)]
+    outs = ck.coq_eval_many('locs', [HEADER + 'Definition results : list bool := [\n ' + ';\n '.join(ch) + '].\nEval vm_compute in (failing results).\n'
+                                     for ch in chunks], jobs=12)
+    lbad = [ci * 80 + j for ci, (ok, out) in enumerate(outs) for j in ((cg.parse_nat_list(out) if ok else None) or [])]
+    lran = all(ok and cg.parse_nat_list(out) is not None for ok, out in outs)
+    ck.obligation(f'Coq model of Circuit._locs (name matching, integer splitting, nested dictionary, sorted flattening) = s_locs on '
+                  f'{len(LOCS_CASES)} lookups', lran and not lbad, 'correspondence', f'failing lookups {lbad[:8]}')
     ck.rule('random circuits (unconnected pins, state elements, dangling nodes) x random origin sets: exact sequences vs the Coq model + '
             'graph-theoretic oracle; naming schemes (bracket / underscore / 2-D / mixed, gaps, shared prefixes) vs ground-truth positions')
     ck.trust('modelled, not verified: Circuit.topological_order, topological_order_with_level, topological_line_order, '
              'reversed_topological_order, fanin (Model/Netlist.v; exact sequence correspondence); wf_netlist is what C09 establishes for '
-             'every Circuit; the prefix lookup _locs (regular expression + nested sort) is covered by the ground-truth oracle only, '
-             'its theorem (numeric LSB..MSB order) is not yet stated in Coq; the fan-in sandwich is checked by the oracle')
+             'every Circuit; the prefix lookup _locs is transcribed for literal prefixes (Model/Locs.v: the regular expression is '
+             'modelled as literal prefix + maximal trailing index run) and compared exactly; the fan-in sandwich is checked by the oracle only')
     for kind, desc, what in fails[:5]:
         ck.fail(kind, ('Circuit traversal: ' if kind == 'traversal' else 'Circuit._locs: ') + what,
                 {'component': 'circuit.Circuit', 'input': desc, 'actual': what})
